@@ -235,6 +235,8 @@ RecAlloc* g_ra = nullptr;
 long g_writes_total = 0;    // write() calls of the program
 long g_writes_returned = 0; // ... that have returned
 bool g_stall = false;
+long g_fail_at = 0;         // fault injection: the k-th writev call returns -1 / EINTR and writes nothing (0 = never)
+long g_writev_calls = 0;
 
 struct RecFile : public FileObject {
   int fno = 0;
@@ -319,6 +321,7 @@ void scenario_app(const vrun::Params& p) {
         g_writes_total++;
       }
   g_stall = p.get("stall", 0) != 0;
+  g_fail_at = p.get("fail", 0);
 
   vrun::begin();
   {
@@ -407,7 +410,7 @@ void scenario_app(const vrun::Params& p) {
 struct Reg {
   Reg() {
     vrun::add("entry", scenario_entry, "P=24,prog=3.17.1,data_max=420");
-    vrun::add("app", scenario_app, "P=24,cap=2,prog=w0x10,close=safe,rot=0,stall=0");
+    vrun::add("app", scenario_app, "P=24,cap=2,prog=w0x10,close=safe,rot=0,stall=0,fail=0");
   }
 } reg;
 
@@ -422,8 +425,13 @@ extern "C" ssize_t writev(int fd, const struct iovec* iov, int cnt) {
     auto it = g_fd_owner.find(fd);
     int f = it == g_fd_owner.end() ? -1 : it->second.first;
     int g = it == g_fd_owner.end() ? -1 : it->second.second;
-    vsched::eventf(true, "\"k\":\"writev\",\"f\":%d,\"g\":%d,\"cnt\":%d,\"einval\":%s", f, g, cnt, cnt > IOV_MAX ? "true" : "false");
+    bool fail = ++g_writev_calls == g_fail_at;
+    vsched::eventf(true, "\"k\":\"writev\",\"f\":%d,\"g\":%d,\"cnt\":%d,\"einval\":%s,\"fail\":%s", f, g, cnt, cnt > IOV_MAX ? "true" : "false", fail ? "true" : "false");
     emit_parts("segs", segs);
+    if (fail) { // interrupted before anything was written
+      errno = EINTR;
+      return -1;
+    }
   }
   if (cnt > IOV_MAX || cnt < 0) { // what the kernel does
     errno = EINVAL;
